@@ -16,7 +16,7 @@ import vlib
 
 MODEL = "consumer"
 MODULE = "Model.Consumer"
-TIED = ["C02_single_fetch", "C02_extract_log_segment", "C02_extract_is_segment", "C02_extract_ordered",
+TIED = ["C02_single_fetch", "C02_no_overlap", "C02_delivered_in_order", "C02_extract_log_segment", "C02_extract_is_segment", "C02_extract_ordered",
         "C02_progress_partial"]
 
 
@@ -298,6 +298,40 @@ def run(ck):
         add("any", cfg, events, drv, None)
         ck.hist("arbitrary_runs")
 
+    # --- 3b. composed: the real Consumer over the REAL KafkaClient (afkak/client.py and decode_fetch_response are between
+    #         the log and the processor); scripted brokers: the partition leader and the group coordinator MOVE between three
+    #         nodes (a broker that is no longer the leader answers NotLeaderForPartition), connections drop, requests time out.
+    #         Monitors only: order / gaps / repeats against the log (mon_log over wire requests and answers), key/value/offset,
+    #         overlap, commit value.  Logs of up to 120 entries against 128..4096-byte buffers.
+    from props import consumer_compose_lib as CC
+    ncomp = 40 * scale
+    moved = 0
+    for i in range(ncomp):
+        log = LL.PartitionLog(rnd, n=rnd.choice([10, 30, 60, 120]))
+        ents = [o for (o, k, v) in log.entries]
+        store0 = rnd.choice([None, None] + ents[:4])
+        store = LL.OffsetStore(store0)
+        cfgc = dict(acn=rnd.choice([0, 1, 3]), acs=0, reset=rnd.choice([0, 1, 2]), maxatt=0, buf=rnd.choice([128, 256, 1024, 4096]),
+                    gen=-1, leader=rnd.choice([1, 2, 3]), coord=rnd.choice([1, 2, 3]))
+        seed = rnd.randrange(1 << 30)
+        run = CC.run_life(random.Random(seed), log, store, rnd.choice([80, 140, 200]),
+                          [CL.OFFSET_EARLIEST, CL.OFFSET_EARLIEST, CL.OFFSET_COMMITTED, ents[0] if ents else 0, ents[len(ents) // 2] if ents else 0],
+                          fault=rnd.choice([0.05, 0.15, 0.3]), moves=rnd.choice([0.0, 1.5, 4.0]), **cfgc)
+        ck.hist("composed_lives")
+        ck.hist("composed_delivered", len(run.delivered))
+        ck.hist("composed_fetch_requests", len(run.fetches))
+        nm = sum(1 for e in run.log_events if e[0] == "move")
+        moved += nm
+        bad = CC.monitors(run, store0)
+        if run.escaped:
+            bad.append(("no exception escapes a stimulus", "step %d: %s" % (run.escaped[0], run.escaped[1])))
+        for (thm, what) in bad:
+            ck.violation({"kind": "monitor (composed: real Consumer over real KafkaClient, scripted brokers, moving leader)", "theorem": thm,
+                          "what": what, "cfg": cfgc, "seed": seed, "events": [list(e) for e in run.log_events], "store0": store0,
+                          "log_units": CC.log_units_json(log), "replay_op": "composed"})
+    ck.hist("composed_leader_or_coordinator_moves", moved)
+    ck.cov["evaluations"] += ncomp
+
     # --- 4. correspondence with the proved model
     diffs, mo = ck.correspond(MODEL, MODULE, cases, impl, "real Consumer vs Model.Consumer (full canonical trace; honest-broker + arbitrary schedules)",
                               nontrivial=lambda c, o: any(x[0] == CL.OUT_CALLPROC for st in CL.split_steps(o)[0] for x in st), describe=describe)
@@ -417,5 +451,8 @@ def replay(rp):
             bad = monitors(CL, LL, cfg, [tuple(e) for e in rp["events"]], drv, None)
         print("monitor verdicts:", json.dumps(bad, indent=1, default=repr))
         return 1 if bad else 0
+    if op == "composed":
+        from props import consumer_compose_lib as CC
+        return CC.replay_composed(rp)
     print(json.dumps(rp, indent=1, default=repr)[:3000])
     return 1
